@@ -1111,8 +1111,12 @@ public:
     static_assert(std::is_pointer_v<T_Rhs>, "Must be a pointer");
     static_assert(std::is_assignable_v<T&, T_Rhs>,
                   "Should assign pointers of compatible types.");
+    // Convert to the stored pointer type before checking: a derived-to-base
+    // conversion may adjust the address, and it is the adjusted address that
+    // gets stored
+    std::remove_cv_t<T> converted = val;
     // Maybe a function pointer, so we need to cast
-    const void* cast_val = reinterpret_cast<const void*>(val);
+    const void* cast_val = reinterpret_cast<const void*>(converted);
     bool safe = sandbox.is_pointer_in_sandbox_memory(cast_val);
     detail::dynamic_check(
       safe,
@@ -1132,7 +1136,7 @@ public:
       "address with get_sandbox_function_address(sandbox, foo), and pass in "
       "the "
       "address\n ");
-    data = val;
+    data = converted;
   }
 
   inline tainted_opaque<T, T_Sbx> to_opaque()
@@ -1369,8 +1373,12 @@ public:
     static_assert(std::is_pointer_v<T_Rhs>, "Must be a pointer");
     static_assert(std::is_assignable_v<T&, T_Rhs>,
                   "Should assign pointers of compatible types.");
+    // Convert to the stored pointer type before checking: a derived-to-base
+    // conversion may adjust the address, and it is the adjusted address that
+    // gets stored
+    std::remove_cv_t<T> converted = val;
     // Maybe a function pointer, so we need to cast
-    const void* cast_val = reinterpret_cast<const void*>(val);
+    const void* cast_val = reinterpret_cast<const void*>(converted);
     bool safe = sandbox.is_pointer_in_sandbox_memory(cast_val);
     detail::dynamic_check(
       safe,
@@ -1391,7 +1399,7 @@ public:
       "the "
       "address\n ");
     get_sandbox_value_ref() =
-      sandbox.template get_sandboxed_pointer<T_Rhs>(cast_val);
+      sandbox.template get_sandboxed_pointer<std::remove_cv_t<T>>(cast_val);
   }
 
   template<typename T_Dummy = void>
